@@ -363,11 +363,12 @@ static void cells_stale(int full)
 /* C11: packets cut to sit on the fragment boundaries of the settings the handshake settled on: compressed length k * capacity - 1,
  * + 0, + 1, + 2 for k = 1, 2, in each direction (capacity = bytes per downstream fragment / per upstream query as measured after
  * the handshake).  Incompressible contents, so the compressed length is the frame length plus zlib's 11 bytes. */
+static int sweep_follow;       /* C15: each downstream boundary packet is followed 1 ms later by a small one (it waits in the session's queue) */
 static int offer_boundary_sweep(int first_tag, int64_t t0)
 {
 	static unsigned char p[70000];
 	int tag = first_tag;
-	for (int dir = 0; dir < 2; dir++) {
+	for (int dir = 0; dir < (sweep_follow ? 1 : 2); dir++) {
 		int cap = dir == 0 ? down_frag_cap : up_chunk_cap;
 		if (cap < 8 || cap > 2000) continue;
 		for (int k = 1; k <= 2; k++) for (int r = -1; r <= 2; r++) {
@@ -377,6 +378,7 @@ static int offer_boundary_sweep(int first_tag, int64_t t0)
 				if (ns_compressed_len(p, n) == target) {
 					WL_MUST[tag] = 1;
 					vw_tun_offer_at(dir == 0 ? ns_srv_tun : ns_cli_tun[1], t0 + (int64_t)(tag - first_tag) * 600000, p, n, tag);
+					if (sweep_follow && tag + 40 < NS_MAXPK) { int n2 = ns_mkpkt(p, 60, WDST(A_CLA), tag + 40, 0); WL_MUST[tag + 40] = 0; vw_tun_offer_at(ns_srv_tun, t0 + (int64_t)(tag - first_tag) * 600000 + 1000, p, n2, tag + 40); }
 					found = 1;
 				}
 			}
@@ -841,6 +843,7 @@ static void run_cell(int job)
 	int64_t t0 = W.now;
 	offer_workload(c->wl, t0);
 	if (!strcmp(PROP, "C11") && !c->two) xp_count(K_SWEEP, offer_boundary_sweep(WLS[c->wl].n + 1, t0 + 9000000));
+	if (want_c15 && !c->two && !hc_san_as) { sweep_follow = 1; xp_count(K_SWEEP, offer_boundary_sweep(WLS[c->wl].n + 1, t0 + 4500000)); }
 	XC.budget = BUDGET;
 	ns_choices_on = BUDGET > 0;
 	if (c->stale) { ns_choices_on = 0; ns_extra_fate = stale_fate; stale_k = cur_stale = c->stale % 10; stale_gap_us = c->stale >= 10 ? 5000000 : 500000; stale_done = 0; stale_workload(t0); }
